@@ -252,6 +252,16 @@ impl State {
             ReverseStep::PushSpecial(Special::VecStackStart(p)) => {
                 write!(out, "PushSpecial({})", p).unwrap()
             }
+            ReverseStep::RestoreLocals(l) => {
+                out.push_str("RestoreLocals([");
+                for (i, x) in l.iter().enumerate() {
+                    if i > 0 {
+                        out.push(',');
+                    }
+                    self.verif_cell(out, x);
+                }
+                out.push_str("])");
+            }
             ReverseStep::SwapRef(r, c) => {
                 write!(out, "SwapRef({},", r.index()).unwrap();
                 self.verif_cell(out, c);
